@@ -35,6 +35,8 @@ def run(ctx):
     ctx.assume('the extraction returns a single column (checked structurally by C03.R6)')
     ctx.rule(siftcore.rule_residual_invariant, 'C01.R1', sift, is_gni)
     ctx.rule(siftcore.rule_cleared_flag, 'C01.R2', gni)
+    from . import l2
+    ctx.rule(l2.rule_inplace_input_dtype, 'C01.R1', ['emd.sift.sift', 'emd.sift.get_next_imf'])
     # additivity needs "the loop is left only for a licensed reason" for all three conditions, and "the loop is left" only
     # for the extraction flag (a continued loop after it would never end); that the cap stops the loop is C03's clause
     ctx.rule(siftcore.rule_licensed_exits, 'C01.R3', sift, is_gni, must_leave=('flag',),
